@@ -410,10 +410,52 @@ func runProj(dir string, seed int64, n int) {
 		util.Die("open: %v", err)
 	}
 	coll := client.Database("d").Collection("p")
+	multi := client.Database("d").Collection("pm")
+	var window []bson.D
 	for i := 0; i < n; i++ {
 		doc := projDoc(g)
 		proj := projection(g)
 		args := map[string]interface{}{"doc": table.Val(doc), "proj": table.Val(proj)}
+		// 0. a result of several different documents: every one is projected on its own (nothing carries over from
+		// the documents before it); each (document, projection) pair is also handed to the specification
+		if i%2 == 0 && len(window) >= 2 {
+			guard("Find over several documents", args, func() {
+				multi.Drop(ctx)
+				var want []bson.D
+				rejected := false
+				for j, wd := range window {
+					wd = append(bson.D{{Key: "_id", Value: int32(j)}}, wd...)
+					if _, err := multi.InsertOne(ctx, wd); err != nil {
+						return
+					}
+					res, perr := mongokit.Project(bsonkit.Clone(&wd), bsonkit.Clone(&proj))
+					r := map[string]interface{}{"err": perr != nil}
+					if perr == nil {
+						r["doc"] = table.Val(*res)
+						want = append(want, *res)
+					} else {
+						rejected = true
+					}
+					trace.Write(map[string]interface{}{"fn": "project", "doc": table.Val(wd), "proj": table.Val(proj), "res": r})
+				}
+				got, isErr := cursorDocs(multi.Find(ctx, bson.D{}, options.Find().SetProjection(proj)))
+				if isErr != rejected {
+					finding("driver", "Find over several documents and mongokit.Project disagree on rejecting the projection", args)
+				} else if !isErr {
+					same := len(got) == len(want)
+					for j := 0; same && j < len(got); j++ {
+						same = sameBytes(got[j], want[j])
+					}
+					if !same {
+						finding("driver", "Find over several documents returns something else than the projection of each document", map[string]interface{}{"proj": table.Val(proj), "docs": vals(window), "got": vals(got), "want": vals(want)})
+					}
+				}
+			})
+		}
+		window = append(window, stripID(doc))
+		if len(window) > 4 {
+			window = window[1:]
+		}
 		guard("Project", args, func() {
 			// 1. mongokit.Project on a private copy that plays the role of the stored document
 			stored := bsonkit.Clone(&doc)
@@ -469,6 +511,16 @@ func runProj(dir string, seed int64, n int) {
 			}
 		})
 	}
+}
+
+func stripID(doc bson.D) bson.D {
+	out := bson.D{}
+	for _, e := range doc {
+		if e.Key != "_id" {
+			out = append(out, e)
+		}
+	}
+	return out
 }
 
 func mustProject(doc, proj bson.D) *bson.D {
